@@ -194,3 +194,27 @@ func runWrappers(r *engine.Run) {
 	r.Bound("receivers", fmt.Sprint(len(wrapRecvs)))
 	r.Bound("probes", fmt.Sprintf("%d (every method of the property)", len(wrapProbes)))
 }
+
+func init() {
+	// A member call on a primitive string hands the wrapper String object (ToObject
+	// of the base) to the built-in as this value, so ToString(this) runs a replaced
+	// String.prototype.toString. Input class: wrappers family, receiver
+	// strprim-proto-toString, member-call route. Relation: observed == the probe's
+	// result on the string the replaced toString returns, with that call logged.
+	engine.RegisterSignature("c09-member-call-this-wrapper", func(m *engine.Mismatch) bool {
+		a := m.Aux
+		if a == nil || a["m"] != "wrap" || a["recv"] != "strprim-proto-toString" || a["route"] != "dot" {
+			return false
+		}
+		var pi int
+		if _, err := fmt.Sscanf(a["probe"], "%d", &pi); err != nil || pi < 0 || pi >= len(wrapProbes) || wrapProbes[pi].m != a["method"] {
+			return false
+		}
+		p := wrapProbes[pi]
+		exp := p.exp(asciiUnits("PQRS"))
+		if p.m == "localeCompare" { // the argument is the ES5 string "abc": any non-zero sign
+			return m.Observed == "ok:number:1 log=proto.toString" || m.Observed == "ok:number:-1 log=proto.toString"
+		}
+		return m.Observed == exp+" log=proto.toString"
+	})
+}
